@@ -70,8 +70,6 @@ def isRoot (g : TGraph) (flat : Bool) (i : Nat) : Bool :=
 def typeName (T : Tables) (t : VT) : Str :=
   ((T.kv2Names.find? (·.1 == t)).map (·.2)).getD []
 
-def lit (s : String) : Str := s.toList
-
 /-- `_export_kv2` of element `i` at indentation `indent`. The fuel bounds the nesting depth (an
 element that is not a root is referenced once, so the depth is at most the number of elements). -/
 def emitElem (E : Tok.Tables) (T : Tables) (g : TGraph) (flat cull : Bool) :
@@ -86,18 +84,18 @@ def emitElem (E : Tok.Tables) (T : Tables) (g : TGraph) (flat cull : Bool) :
       let child (j : Nat) (ind : Str) : Str := emitElem E T g flat cull fuel ind j
       let refText (r : TRef) (ind : Str) : Str :=
         match r with
-        | .null => lit "\"element\" \"\""
-        | .stub u => lit "\"element\" \"" ++ u ++ ['"']
+        | .null => ['"', 'e', 'l', 'e', 'm', 'e', 'n', 't', '"', ' ', '"', '"']
+        | .stub u => ['"', 'e', 'l', 'e', 'm', 'e', 'n', 't', '"', ' ', '"'] ++ u ++ ['"']
         | .idx j =>
-          if isRoot g flat j then lit "\"element\" \"" ++ ((g.elems[j]?).map (·.uuid)).getD [] ++ ['"']
+          if isRoot g flat j then ['"', 'e', 'l', 'e', 'm', 'e', 'n', 't', '"', ' ', '"'] ++ ((g.elems[j]?).map (·.uuid)).getD [] ++ ['"']
           else child j ind
       quote E e.type ++ crlf ++ indent ++ ['{'] ++ crlf ++
-      (if !cull || isRoot g flat i then ic ++ lit "\"id\" \"elementid\" \"" ++ e.uuid ++ ['"'] ++ crlf else []) ++
-      ic ++ lit "\"name\" \"string\" " ++ quote E e.name ++ crlf ++
+      (if !cull || isRoot g flat i then ic ++ ['"', 'i', 'd', '"', ' ', '"', 'e', 'l', 'e', 'm', 'e', 'n', 't', 'i', 'd', '"', ' ', '"'] ++ e.uuid ++ ['"'] ++ crlf else []) ++
+      ic ++ ['"', 'n', 'a', 'm', 'e', '"', ' ', '"', 's', 't', 'r', 'i', 'n', 'g', '"', ' '] ++ quote E e.name ++ crlf ++
       (e.attrs.flatMap fun a =>
         ic ++ quote E a.name ++ [' '] ++
         (if a.isArray then
-          ['"'] ++ typeName T a.type ++ lit "_array\"" ++ crlf ++ ic ++ ['['] ++ crlf ++
+          ['"'] ++ typeName T a.type ++ ['_', 'a', 'r', 'r', 'a', 'y', '"'] ++ crlf ++ ic ++ ['['] ++ crlf ++
           ((a.vals.zipIdx).flatMap fun (v, k) =>
             ia ++ (match v with
               | .ref r => refText r ia
@@ -109,7 +107,7 @@ def emitElem (E : Tok.Tables) (T : Tables) (g : TGraph) (flat cull : Bool) :
             (match r with
              | .idx j => if isRoot g flat j then refText r ic ++ crlf else refText r ic ++ crlf
              | _ => refText r ic ++ crlf)
-          | [.text s] => ['"'] ++ typeName T a.type ++ lit "\" " ++ quote E s ++ crlf
+          | [.text s] => ['"'] ++ typeName T a.type ++ ['"', ' '] ++ quote E s ++ crlf
           | _ => [])) ++
       indent ++ ['}']
 
@@ -162,7 +160,7 @@ def uuidOK (s : Str) : Bool :=
   h.length == 32 && h.all fun c => c.isDigit || ('a' ≤ c && c ≤ 'f') || ('A' ≤ c && c ≤ 'F')
 
 def endsWithArray (s : Str) : Option Str :=
-  let suf := lit "_array"
+  let suf := ['_', 'a', 'r', 'r', 'a', 'y']
   if s.length ≥ suf.length ∧ s.drop (s.length - suf.length) = suf then some (s.take (s.length - suf.length)) else none
 
 /-- `ValueType(name)`. -/
@@ -195,15 +193,15 @@ def parseBlock (T : Tables) (fuel : Nat) (fold : Str → Str) (typ name : Str) (
       | .error e => .error e
       | .ok (origTyp, ts) =>
         let typName := fold origTyp
-        if attrName = lit "id" ∧ typName = lit "elementid" then
+        if attrName = ['i', 'd'] ∧ typName = ['e', 'l', 'e', 'm', 'e', 'n', 't', 'i', 'd'] then
           match expect kSTRING "uuid" ts with
           | .error e => .error e
           | .ok (u, ts) =>
             if uuid.isSome then .error "duplicate uuid"
             else if !uuidOK u then .error "invalid uuid"
             else parseBlock T fuel fold typ name (some u) attrs ts
-        else if attrName = lit "name" then
-          if typName ≠ lit "string" then .error "name must be string"
+        else if attrName = ['n', 'a', 'm', 'e'] then
+          if typName ≠ ['s', 't', 'r', 'i', 'n', 'g'] then .error "name must be string"
           else match expect kSTRING "name" ts with
             | .error e => .error e
             | .ok (n, ts) => parseBlock T fuel fold typ n uuid attrs ts
@@ -255,7 +253,7 @@ def parseArray (T : Tables) (fuel : Nat) (fold : Str → Str) (attrName : Str) (
         | (k, v) :: rest => if k = kCOMMA then rest else (k, v) :: rest
         | [] => []
       if vt = .element then
-        if v = lit "element" then
+        if v = ['e', 'l', 'e', 'm', 'e', 'n', 't'] then
           match expect kSTRING "uuid" ts with
           | .error e => .error e
           | .ok (u, ts) =>
